@@ -28,7 +28,7 @@ def normalize (s : State) : State :=
     debts := insSort (fun a b => a.1 < b.1) s.debts,
     faults := insSort (fun a b => a.key < b.key) s.faults,
     faultIdx := insSort (fun a b => a.provider < b.provider || (a.provider == b.provider && a.shardId < b.shardId)) s.faultIdx,
-    fishing := insSort (fun a b => a.1 < b.1) s.fishing,
+    fishing := insSort (fun a b => a.1.1 < b.1.1 || (a.1.1 == b.1.1 && a.1.2 < b.1.2)) s.fishing,
     did := { s.did with
       did := insSort (fun a b => bytesLt a.accountId b.accountId) s.did.did,
       accountList := insSort (fun a b => a.1 < b.1) s.did.accountList,
